@@ -667,7 +667,8 @@ def fuzz_one(data):
         return None
     # path arguments outside the definite Reference Path grammar (C12's stated domain) are the path library's business: it reads e.g. '$.ob]j' as '$.obj'
     import re
-    for tok in re.findall(r"\$[^\s,()']*", re.sub(r"'(?:\\.|[^'\\])*'", "''", expr)):
+    # (a path glued to a string literal, as in $.s',;', is read by the library as the path in front of the quote: same leniency, same exclusion)
+    for tok in re.findall(r"\$[^\s,()]*", re.sub(r"'(?:\\.|[^'\\])*'", "''", expr)):
         if not re.fullmatch(r"\$\$?(?:\.[A-Za-z_][A-Za-z0-9_]*|\[\d+\])*", tok):
             return None
     try:
